@@ -605,6 +605,75 @@ pub fn hostile_doc(rng: &mut Rng, env: &WorkerEnv) -> (String, Vec<u8>) {
             s.push_str("</svg>");
             ("lazy-var-doubling".into(), s.into_bytes())
         }
+        42 => {
+            // one svgdx attribute, every value of the dictionary: one element per value
+            const ATTRS: &[(&str, &str)] = &[
+                ("wh", "<rect xy=\"0 0\" wh=\"@\"/>"), ("xy", "<rect xy=\"@\" wh=\"2\"/>"), ("cxy", "<rect cxy=\"@\" wh=\"2\"/>"),
+                ("xy1", "<line xy1=\"@\" xy2=\"5 5\"/>"), ("xy2", "<line xy1=\"0 0\" xy2=\"@\"/>"), ("x", "<rect x=\"@\" y=\"0\" wh=\"2\"/>"),
+                ("width", "<rect width=\"@\" height=\"2\"/>"), ("r", "<circle cxy=\"0 0\" r=\"@\"/>"), ("rxy", "<ellipse cxy=\"0 0\" rxy=\"@\"/>"),
+                ("dxy", "<rect xy=\"0 0\" wh=\"2\" dxy=\"@\"/>"), ("dx", "<rect xy=\"0 0\" wh=\"2\" dx=\"@\"/>"), ("dwh", "<rect xy=\"0 0\" wh=\"2\" dwh=\"@\"/>"),
+                ("dw", "<rect xy=\"0 0\" wh=\"2\" dw=\"@\"/>"), ("xy-loc", "<rect xy=\"#a@c\" xy-loc=\"@\" wh=\"2\"/>"),
+                ("text", "<rect wh=\"5\" text=\"@\"/>"), ("text-loc", "<rect wh=\"5\" text=\"t\" text-loc=\"@\"/>"),
+                ("text-dxy", "<rect wh=\"5\" text=\"t\" text-dxy=\"@\"/>"), ("text-dx", "<rect wh=\"5\" text=\"t\" text-dx=\"@\"/>"),
+                ("text-lsp", "<rect wh=\"5\" text=\"a\\nb\" text-lsp=\"@\"/>"), ("text-pre", "<rect wh=\"5\" text=\"a b\" text-pre=\"@\"/>"),
+                ("text-style", "<rect wh=\"5\" text=\"t\" text-style=\"@\"/>"), ("margin", "<rect surround=\"#a\" margin=\"@\"/>"),
+                ("surround", "<rect surround=\"@\"/>"), ("inside", "<rect inside=\"@\"/>"), ("start", "<line start=\"@\" end=\"#a\"/>"),
+                ("end", "<polyline start=\"#a\" end=\"@\"/>"), ("edge-type", "<line start=\"#a\" end=\"#b\" edge-type=\"@\"/>"),
+                ("corner-offset", "<polyline start=\"#a@b\" end=\"#b@l\" corner-offset=\"@\"/>"), ("points", "<polyline points=\"@\"/>"),
+                ("d", "<path d=\"@\"/>"), ("transform", "<g transform=\"@\"><rect wh=\"2\"/></g>"), ("class", "<rect wh=\"2\" class=\"@\"/>"),
+                ("style", "<rect wh=\"2\" style=\"@\"/>"), ("id", "<rect wh=\"2\" id=\"@\"/>"), ("href", "<reuse href=\"@\"/>"),
+                ("use-href", "<use href=\"@\" xy=\"1 1\"/>"), ("clip-path", "<rect wh=\"9\" clip-path=\"@\"/>"), ("_", "<rect wh=\"2\" _=\"@\"/>"),
+                ("__", "<rect wh=\"2\" __=\"@\"/>"), ("match", "<defaults><_ match=\"@\" rx=\"1\"/></defaults><rect wh=\"2\"/>"),
+                ("count", "<loop count=\"@\"><rect wh=\"1\"/></loop>"), ("while", "<loop while=\"@\"><rect wh=\"1\"/></loop>"),
+                ("until", "<loop until=\"@\"><rect wh=\"1\"/></loop>"), ("loop-start", "<loop count=\"2\" loop-var=\"i\" start=\"@\"><rect wh=\"1\"/></loop>"),
+                ("loop-step", "<loop count=\"2\" loop-var=\"i\" step=\"@\"><rect wh=\"1\"/></loop>"), ("loop-var", "<loop count=\"2\" loop-var=\"@\"><rect wh=\"1\"/></loop>"),
+                ("for-data", "<for data=\"@\" var=\"v\"><rect wh=\"1\" text=\"$v\"/></for>"), ("for-var", "<for data=\"1, 2\" var=\"@\"><rect wh=\"1\"/></for>"),
+                ("idx-var", "<for data=\"1, 2\" var=\"v\" idx-var=\"@\"><rect wh=\"1\"/></for>"), ("test", "<if test=\"@\"><rect wh=\"1\"/></if>"),
+                ("var", "<var v=\"@\"/><rect wh=\"1\" text=\"$v\"/>"), ("g-attr", "<g q=\"@\"><rect wh=\"1\" text=\"$q\"/></g>"),
+                ("reuse-attr", "<reuse href=\"#tp\" q=\"@\"/>"), ("point-xy", "<point xy=\"@\"/>"), ("box-wh", "<box xy=\"0 0\" wh=\"@\"/>"),
+                ("text-el", "<text xy=\"0 0\">@</text>"), ("tspan", "<text xy=\"0 0\"><tspan>@</tspan></text>"), ("rotate", "<rect wh=\"3\" rotate=\"@\"/>"),
+                ("image", "<image href=\"@\" xy=\"0 0\" wh=\"2\"/>"), ("root-width", ""), ("font-size", "<config font-size=\"@\"/><rect wh=\"2\" text=\"t\"/>"),
+            ];
+            let (name, tpl) = *rng.pick(ATTRS);
+            let esc = |v: &str| v.replace('&', "&amp;").replace('"', "&quot;").replace('<', "&lt;");
+            let mut s = String::new();
+            if name == "root-width" {
+                // the root can only be tried one value at a time
+                let v = rng.pick(DICT);
+                s.push_str(&format!("<svg width=\"{}\"><rect wh=\"2\"/></svg>", esc(v)));
+            } else {
+                s.push_str("<svg><specs><g id=\"tp\"><rect wh=\"1\" text=\"$q\"/></g></specs><rect id=\"a\" xy=\"0 0\" wh=\"4\"/><rect id=\"b\" xy=\"9 9\" wh=\"3\"/>");
+                for v in DICT {
+                    // (entity-looking values go in as written, the others escaped)
+                    // (an ill-formed entity would end the whole document at the parser)
+                    let val = if *v == "&amp;" || *v == "&lt;" { v.to_string() } else { esc(v) };
+                    s.push_str(&tpl.replace('@', &val));
+                }
+                s.push_str("</svg>");
+            }
+            (format!("attr-grid:{name}"), s.into_bytes())
+        }
+        43 => {
+            // every path command (bearing commands included) with arguments of every magnitude
+            const MAG: &[&str] = &["0", "1", "-1", "0.5", "360", "725", "1e6", "-1e6", "1e10", "-1e10", "10000000000", "1e20", "1e30", "1e39", "-1e39"];
+            let mut s = String::from("<svg>");
+            for cmd in "MmLlHhVvCcSsQqTtAaBb".chars() {
+                let nargs = match cmd.to_ascii_lowercase() {
+                    'h' | 'v' | 'b' => 1,
+                    'm' | 'l' | 't' => 2,
+                    's' | 'q' => 4,
+                    'c' => 6,
+                    _ => 7,
+                };
+                for m in MAG {
+                    let args: Vec<&str> = (0..nargs).map(|i| if i % 2 == 0 { *m } else { "1" }).collect();
+                    let tail = *rng.pick(&["h1", "l 1 1", "v -2", "m 1 1 h 2", "z", ""]);
+                    s.push_str(&format!("<path d=\"M0 0 {cmd}{} {tail}\"/>", args.join(" ")));
+                }
+            }
+            s.push_str("</svg>");
+            ("path-grid".into(), s.into_bytes())
+        }
         28 => {
             let (dd, why) = docgen::failing_doc(rng);
             (format!("failing:{why}"), dd.into_bytes())
